@@ -2,7 +2,7 @@
 from __future__ import annotations
 
 import ast
-from typing import Dict, List, Set
+from typing import Optional, Dict, List, Set
 
 from .. import sym
 from ..model import AnalysisError, Func, Repo, short, walk_no_nested
@@ -18,6 +18,17 @@ def r9_1(repo: Repo) -> RuleResult:
     return r10_1(repo, "R9.1", files={MG}, floor=19)
 
 
+def _next_sibling(f: Func, st: ast.stmt) -> Optional[ast.stmt]:
+    for parent in ast.walk(f.node):
+        for fld in ("body", "orelse", "finalbody"):
+            v = getattr(parent, fld, None)
+            if isinstance(v, list):
+                for i, x in enumerate(v):
+                    if x is st:
+                        return v[i + 1] if i + 1 < len(v) else None
+    return None
+
+
 def r9_2(repo: Repo) -> RuleResult:
     rr = RuleResult("R9.2", "every decode site uses the test `code <= mcc` and the offset `code - mcc - 1`; the encoder starts at mcc + 1", floor=7)
     m = repo.module(MG)
@@ -31,6 +42,12 @@ def r9_2(repo: Repo) -> RuleResult:
             elif isinstance(n, ast.If) and len(n.body) == 1 and isinstance(n.body[0], ast.Return) and n.orelse \
                     and isinstance(n.orelse[0], ast.Return):
                 cond, other = n.test, n.orelse[0].value
+            elif isinstance(n, ast.If) and len(n.body) == 1 and isinstance(n.body[0], ast.Return) and not n.orelse:
+                # `if c: return A` followed by `return B` in the same block (no-else-return style)
+                nxt = _next_sibling(f, n)
+                if not isinstance(nxt, ast.Return) or nxt.value is None:
+                    continue
+                cond, other = n.test, nxt.value
             else:
                 continue
             if not (isinstance(cond, ast.Compare) and len(cond.ops) == 1 and "max_char_code" in norm(cond.comparators[0])):
